@@ -112,7 +112,10 @@ class Eval:
         if k == 'DeclRefExpr':
             nm = n['referencedDecl']['name']
             if n['referencedDecl'].get('kind') == 'EnumConstantDecl': return self.tu.enums[nm]
-            if nm not in self.env: raise AnalysisBroken(f'decoder: read of unknown variable {nm} at {where(n)}')
+            if nm not in self.env:
+                # the tool's copy of the decoder keeps its cursor in file-scope variables of the same names
+                if nm in self.fields and nm in self.tu.globals: return self.fields[nm]
+                raise AnalysisBroken(f'decoder: read of unknown variable {nm} at {where(n)}')
             return self.env[nm]
         if k == 'MemberExpr':
             base = self.ev(n['inner'][0])
@@ -149,8 +152,11 @@ class Eval:
 
     def assign(self, lhs, v):
         lhs = strip(lhs)
-        if lhs['kind'] == 'DeclRefExpr': self.env[lhs['referencedDecl']['name']] = v; return
-        if lhs['kind'] == 'MemberExpr' and self.ev(lhs['inner'][0]) == ('u',):
+        if lhs['kind'] == 'DeclRefExpr' and not (lhs['referencedDecl']['name'] not in self.env and lhs['referencedDecl']['name'] in self.fields and lhs['referencedDecl']['name'] in self.tu.globals):
+            self.env[lhs['referencedDecl']['name']] = v; return
+        if lhs['kind'] == 'DeclRefExpr':
+            lhs = {'kind': 'MemberExpr', 'name': lhs['referencedDecl']['name'], 'inner': None}
+        if lhs['kind'] == 'MemberExpr' and (lhs['inner'] is None or self.ev(lhs['inner'][0]) == ('u',)):
             if lhs['name'] == 'the_index':
                 if not isinstance(v, int): raise AnalysisBroken('decoder: the_index becomes input dependent')
                 self.gets = v
